@@ -318,8 +318,13 @@ def run_helpers(pe, acc, case):
     # error_band = sqrt(g^T C g)
     for pi in range(len(PARAMS)):
         obs, names = pool(pe, pi)
-        for idx in ([0, 1], [0, 1, 2], [0, 9, 10], [4, 5, 6], [12, 11, 2, 8]):
+        for idx, scale in itertools.product(([0, 1], [0, 1, 2], [0, 9, 10], [4, 5, 6], [12, 11, 2, 8]), (1.0, 3.0e4, 1.0e-5)):
+            # scaled parameters: covariance entries so large that their last-bit asymmetry exceeds any absolute threshold, and tiny ones
             beta = [obs[i] for i in idx]
+            if scale != 1.0:
+                beta = [scale * (k + 1) * o for k, o in enumerate(beta)]
+                for o in beta:
+                    o.gamma_method(**PARAMS[pi])
             funcs = {2: lambda p, x: p[0] + p[1] * x, 3: lambda p, x: p[0] + p[1] * x + p[2] * anp.exp(-x), 4: lambda p, x: p[0] * anp.sin(p[1] * x) + p[2] * x ** 2 / p[3]}
             grads = {2: lambda p, x: np.array([1.0, x]), 3: lambda p, x: np.array([1.0, x, np.exp(-x)]),
                      4: lambda p, x: np.array([np.sin(p[1] * x), p[0] * x * np.cos(p[1] * x), x ** 2 / p[3], -p[2] * x ** 2 / p[3] ** 2])}
@@ -330,8 +335,8 @@ def run_helpers(pe, acc, case):
                 C = pe.covariance(beta)
             pv = [o.value for o in beta]
             exp = np.array([math.sqrt(max(0.0, grads[len(idx)](pv, x) @ C @ grads[len(idx)](pv, x))) for x in xs])
-            if not np.allclose(band, exp, rtol=1e-10, atol=1e-14):
-                acc.fail('error_band', dict(case, idx=idx, pi=pi), 'error band %s != sqrt(g^T C g) %s' % (band, exp))
+            if not np.allclose(band, exp, rtol=1e-10, atol=1e-14 * scale):
+                acc.fail('error_band', dict(case, idx=idx, pi=pi, scale=scale), 'error band %s != sqrt(g^T C g) %s' % (band, exp))
             else:
-                acc.ok(('band', tuple(idx), pi), True, 'error_band-ok')
+                acc.ok(('band', tuple(idx), pi, scale), True, 'error_band-ok')
     acc.sample({'kind': 'helpers', 'sort_corr': 'all key orders of 1..4 keys x block sizes 1..3', 'error_band': '5 parameter lists x 3 analysis settings'})
